@@ -194,6 +194,40 @@ RF_CLOSURE = {"rns/Alpha.1.0.dsdl": [], "rns/Bravo.1.0.dsdl": ["rns/Alpha.1.0.ds
 RF_SPELLINGS = ["plain", "dotdot", "symlink", "str", "relative"]
 
 
+HANDLER_KINDS = ["lambda", "falsy-callable-object", "truthy-callable-object", "bound-method", "partial", "falsy-bound-method-owner"]
+
+
+def make_handler(kind, sink, base):
+    import functools
+
+    def record(p, l, t):
+        sink.append([api.rel(base, p), l, t])
+
+    if kind == "lambda":
+        return lambda p, l, t: record(p, l, t)
+
+    class Log(list):  # an (empty, hence falsy) list that is also callable
+        def __call__(self, p, l, t):
+            record(p, l, t)
+
+        def method(self, p, l, t):
+            record(p, l, t)
+
+    class Obj:
+        def __call__(self, p, l, t):
+            record(p, l, t)
+
+    if kind == "falsy-callable-object":
+        return Log()
+    if kind == "truthy-callable-object":
+        return Obj()
+    if kind == "bound-method":
+        return Obj().__call__
+    if kind == "falsy-bound-method-owner":
+        return Log().method
+    return functools.partial(lambda extra, p, l, t: record(p, l, t), None)
+
+
 def rf_cases():
     names = sorted(RF_FILES)
     for k in (1, 2, 3):
@@ -204,6 +238,13 @@ def rf_cases():
                 yield {"kind": "rf-prints", "targets": [[combo[0], "plain"]] + [[n, "plain"] for n in combo[1:]] + [[combo[0], sp]]}
                 yield {"kind": "rf-prints", "targets": [[combo[0], sp]] + [[n, "plain"] for n in combo[1:]] + [[combo[0], "plain"]]}
             yield {"kind": "rf-prints", "targets": [[n, "plain"] for n in combo] + [[combo[0], "plain"]]}
+            if k <= 2:
+                # the handler is any callable: objects whose truth value is False (an empty list subclass with __call__), bound
+                # methods, partial applications; through read_files and through read_namespace
+                for h in HANDLER_KINDS[1:]:
+                    yield {"kind": "rf-prints", "targets": [[n, "plain"] for n in combo], "handler": h}
+    for h in HANDLER_KINDS:
+        yield {"kind": "rf-prints", "targets": [[n, "plain"] for n in names], "handler": h, "api": "read_namespace"}
 
 
 def check_rf_prints(case, R: engine.Acc):
@@ -237,7 +278,11 @@ def check_rf_prints(case, R: engine.Acc):
         R.case(case, nontrivial=True, sample=(len(case["targets"]) == 3 and case["targets"][-1][1] == "dotdot" and len(R.samples) < 2))
         try:
             with engine.deadline(20):
-                pydsdl.read_files([spell(n, sp) for n, sp in case["targets"]], [base / "rns"], [], lambda p, l, t: prints.append([api.rel(base, p), l, t]))
+                handler = make_handler(case.get("handler", "lambda"), prints, base)
+                if case.get("api") == "read_namespace":
+                    pydsdl.read_namespace(base / "rns", [], handler)
+                else:
+                    pydsdl.read_files([spell(n, sp) for n, sp in case["targets"]], [base / "rns"], [], handler)
         except pydsdl.InvalidDefinitionError as ex:
             if any(sp == "symlink" for _n, sp in case["targets"]):
                 R.outcome("rf-rejected")  # a target reached through a link outside the root may be refused; nothing was printed wrongly
